@@ -193,6 +193,74 @@ pub fn run(ctx: &mut Ctx) {
                 }
             }
         }
+        // the Encrypt action aimed at an element that is ALREADY encrypted under another key adds a layer:
+        // the new element opens with the second key (only), to exactly the first-key element
+        if flat.len() > 1 {
+            let (_, target) = &flat[rng.range(1, flat.len() - 1)];
+            let k2 = fresh_key(&mut rng);
+            let set = gen::digest_set(&[target.digest]);
+            let r1 = e.elide_removing_set_with_action(&set, &action(Act::Encrypt, &key));
+            let mut r6 = rng.fork();
+            let r2 = match trap::guard(|| gen::elide_via_any_entry_point(&r1, &[target.digest], false, Act::Encrypt, &k2, &mut r6)) {
+                Ok(x) => x,
+                Err(p) => {
+                    ctx.violation(&format!("second-layer/panic/{}", p.signature()), &format!("{:?}", p), jhex(&r1));
+                    continue;
+                }
+            };
+            let first: std::collections::HashMap<crate::pos::Path, Envelope> = pos::positions(&r1).into_iter().collect();
+            for (p2, x2) in pos::positions(&r2) {
+                if x2.is_encrypted() && gen::root_digest(&x2) == target.digest {
+                    ctx.eval();
+                    ctx.count("second_layer_elements");
+                    let x1 = match first.get(&p2) {
+                        Some(x1) => x1,
+                        None => continue,
+                    };
+                    match x2.decrypt_subject(&k2) {
+                        Ok(d) => {
+                            if env_bytes(&d) != env_bytes(x1) {
+                                ctx.violation("second-layer/differs", "an element encrypted a second time (Encrypt action, other key) does not open to the first-key element", jhex(&e));
+                            }
+                        }
+                        Err(err) => ctx.violation("second-layer/err", &format!("an element encrypted a second time does not open with the second key: {}", err), jhex(&e)),
+                    }
+                    if x2.decrypt_subject(&key).is_ok() {
+                        ctx.violation("second-layer/opens-with-first-key", "an element encrypted a second time under another key still opens with the first key alone", jhex(&e));
+                    }
+                }
+            }
+        }
+        // receivers whose subject is already a placeholder of another kind (elided, compressed): the subject
+        // is encrypted as it stands, the digest is kept, decryption gives the receiver back
+        if t.kind == Kind::Node {
+            for form in ["elided-subject", "compressed-subject"] {
+                let recv = if form == "elided-subject" { e.elide_removing_target(&e.subject()) } else { e.compress_subject().unwrap_or(e.clone()) };
+                if !(recv.is_subject_elided() || recv.is_subject_compressed()) {
+                    continue;
+                }
+                ctx.eval();
+                ctx.count(&format!("receiver_{}", form));
+                match trap::guard(|| recv.encrypt_subject(&key)) {
+                    Ok(Ok(x)) => {
+                        if gen::root_digest(&x) != t.digest || !x.is_subject_encrypted() {
+                            ctx.violation(&format!("{}/digest", form), "encrypt_subject on a receiver with a placeholder subject changed the digest / did not encrypt", jhex(&recv));
+                        }
+                        check_spec(ctx, &x, "encrypt_subject on placeholder subject");
+                        match x.decrypt_subject(&key) {
+                            Ok(d) if env_bytes(&d) == env_bytes(&recv) => {}
+                            Ok(_) => ctx.violation(&format!("{}/roundtrip-differs", form), "decrypt_subject does not give the receiver back", jhex(&recv)),
+                            Err(err) => ctx.violation(&format!("{}/roundtrip-err", form), &format!("{}", err), jhex(&recv)),
+                        }
+                        if x.encrypt_subject(&key).is_ok() {
+                            ctx.violation(&format!("{}/double-encrypt-accepted", form), "a second encrypt_subject was accepted", jhex(&recv));
+                        }
+                    }
+                    Ok(Err(err)) => ctx.violation(&format!("{}/err", form), &format!("encrypt_subject refused a receiver whose subject is a placeholder of another kind: {}", err), jhex(&recv)),
+                    Err(p) => ctx.violation(&format!("{}/panic/{}", form, p.signature()), &format!("{:?}", p), jhex(&recv)),
+                }
+            }
+        }
         // an encrypted envelope (of any case, also a whole node) used as the subject of further
         // assertions, then decrypted in place
         {
